@@ -26,6 +26,7 @@ package pq
 //@ func NewQueue
 //@   ensures fresh(result) && len(result.heap.a) == 0
 //@   ensures result.heap.less == less && result.heap.setIndex == setIndex
+//@   ensures less != nil ==> wfHeap(result.heap)
 //@   modifies nothing
 //@   props C20
 //@
@@ -95,12 +96,12 @@ package pq
 //@ // the interface value.
 //@ spec hpOf(h any) *pqHeap = unbox(h, "*pqHeap")
 //@ spec heapOK(h pqHeap) bool = forall k int :: 1 <= k && k < len(h.a) ==> !lessOf(h.less, h.a[k], h.a[(k-1)/2])
-//@ spec wfHeap(h pqHeap) bool = h.less != nil && distinct(h) && idxOK(h) && heapOK(h)
+//@ spec wfHeap(h pqHeap) bool = h.less != nil && (h.setIndex != nil ==> distinct(h)) && idxOK(h) && heapOK(h)
 //@ spec member(h pqHeap, x any) bool = exists k int :: 0 <= k && k < len(h.a) && h.a[k] == x
 //@
 //@ func container/heap.Push
 //@   trusted
-//@   requires typeis(h, "*pqHeap") && hpOf(h) != nil && wfHeap(*hpOf(h)) && !member(*hpOf(h), x)
+//@   requires typeis(h, "*pqHeap") && hpOf(h) != nil && wfHeap(*hpOf(h)) && (hpOf(h).setIndex != nil ==> !member(*hpOf(h), x))
 //@   ensures len(hpOf(h).a) == old(len(hpOf(h).a)) + 1
 //@   ensures wfHeap(*hpOf(h)) && member(*hpOf(h), x)
 //@   ensures forall y any :: old(member(*hpOf(h), y)) ==> member(*hpOf(h), y)
@@ -113,7 +114,7 @@ package pq
 //@   trusted
 //@   requires typeis(h, "*pqHeap") && hpOf(h) != nil && wfHeap(*hpOf(h)) && len(hpOf(h).a) > 0
 //@   ensures len(hpOf(h).a) == old(len(hpOf(h).a)) - 1
-//@   ensures wfHeap(*hpOf(h)) && old(member(*hpOf(h), result)) && !member(*hpOf(h), result)
+//@   ensures wfHeap(*hpOf(h)) && old(member(*hpOf(h), result)) && (hpOf(h).setIndex != nil ==> !member(*hpOf(h), result))
 //@   ensures forall y any :: old(member(*hpOf(h), y)) && y != result ==> member(*hpOf(h), y)
 //@   ensures forall y any :: member(*hpOf(h), y) ==> old(member(*hpOf(h), y))
 //@   ensures forall y any :: old(member(*hpOf(h), y)) ==> !lessOf(hpOf(h).less, y, result)
@@ -123,9 +124,9 @@ package pq
 //@
 //@ func container/heap.Fix
 //@   trusted
-//@   requires typeis(h, "*pqHeap") && hpOf(h) != nil && hpOf(h).less != nil && distinct(*hpOf(h)) && idxOK(*hpOf(h))
+//@   requires typeis(h, "*pqHeap") && hpOf(h) != nil && hpOf(h).less != nil && (hpOf(h).setIndex != nil ==> distinct(*hpOf(h))) && idxOK(*hpOf(h))
 //@   requires 0 <= i && i < len(hpOf(h).a)
-//@   ensures len(hpOf(h).a) == old(len(hpOf(h).a)) && distinct(*hpOf(h)) && idxOK(*hpOf(h))
+//@   ensures len(hpOf(h).a) == old(len(hpOf(h).a)) && (hpOf(h).setIndex != nil ==> distinct(*hpOf(h))) && idxOK(*hpOf(h))
 //@   ensures forall y any :: old(member(*hpOf(h), y)) <==> member(*hpOf(h), y)
 //@   ensures hpOf(h).less == old(hpOf(h).less) && hpOf(h).setIndex == old(hpOf(h).setIndex)
 //@   modifies elems(hpOf(h).a)
@@ -137,7 +138,7 @@ package pq
 //@   requires 0 <= i && i < len(hpOf(h).a)
 //@   ensures len(hpOf(h).a) == old(len(hpOf(h).a)) - 1
 //@   ensures result == old(hpOf(h).a[i])
-//@   ensures wfHeap(*hpOf(h)) && !member(*hpOf(h), result)
+//@   ensures wfHeap(*hpOf(h)) && (hpOf(h).setIndex != nil ==> !member(*hpOf(h), result))
 //@   ensures forall y any :: old(member(*hpOf(h), y)) && y != result ==> member(*hpOf(h), y)
 //@   ensures forall y any :: member(*hpOf(h), y) ==> old(member(*hpOf(h), y))
 //@   ensures hpOf(h).less == old(hpOf(h).less) && hpOf(h).setIndex == old(hpOf(h).setIndex)
@@ -146,7 +147,7 @@ package pq
 //@
 //@ // ---- Queue: thin wrappers; their contracts re-export the assumed ones.
 //@ func (*Queue).Push
-//@   requires pq != nil && wfHeap(pq.heap) && !member(pq.heap, x)
+//@   requires pq != nil && wfHeap(pq.heap) && (pq.heap.setIndex != nil ==> !member(pq.heap, x))
 //@   ensures len(pq.heap.a) == old(len(pq.heap.a)) + 1
 //@   ensures wfHeap(pq.heap) && member(pq.heap, x)
 //@   ensures forall y any :: old(member(pq.heap, y)) ==> member(pq.heap, y)
@@ -157,7 +158,7 @@ package pq
 //@ func (*Queue).Pop
 //@   requires pq != nil && wfHeap(pq.heap) && len(pq.heap.a) > 0
 //@   ensures len(pq.heap.a) == old(len(pq.heap.a)) - 1
-//@   ensures wfHeap(pq.heap) && old(member(pq.heap, result)) && !member(pq.heap, result)
+//@   ensures wfHeap(pq.heap) && old(member(pq.heap, result)) && (pq.heap.setIndex != nil ==> !member(pq.heap, result))
 //@   ensures forall y any :: old(member(pq.heap, y)) && y != result ==> member(pq.heap, y)
 //@   ensures forall y any :: member(pq.heap, y) ==> old(member(pq.heap, y))
 //@   ensures forall y any :: old(member(pq.heap, y)) ==> !lessOf(pq.heap.less, y, result)
@@ -165,9 +166,9 @@ package pq
 //@   props C20
 //@
 //@ func (*Queue).Fix
-//@   requires pq != nil && pq.heap.less != nil && distinct(pq.heap) && idxOK(pq.heap)
+//@   requires pq != nil && pq.heap.less != nil && (pq.heap.setIndex != nil ==> distinct(pq.heap)) && idxOK(pq.heap)
 //@   requires 0 <= index && index < len(pq.heap.a)
-//@   ensures len(pq.heap.a) == old(len(pq.heap.a)) && distinct(pq.heap) && idxOK(pq.heap)
+//@   ensures len(pq.heap.a) == old(len(pq.heap.a)) && (pq.heap.setIndex != nil ==> distinct(pq.heap)) && idxOK(pq.heap)
 //@   ensures forall y any :: old(member(pq.heap, y)) <==> member(pq.heap, y)
 //@   modifies elems(pq.heap.a)
 //@   props C20
@@ -176,7 +177,7 @@ package pq
 //@   requires pq != nil && wfHeap(pq.heap)
 //@   requires 0 <= index && index < len(pq.heap.a)
 //@   ensures len(pq.heap.a) == old(len(pq.heap.a)) - 1
-//@   ensures wfHeap(pq.heap) && !member(pq.heap, old(pq.heap.a[index]))
+//@   ensures wfHeap(pq.heap) && (pq.heap.setIndex != nil ==> !member(pq.heap, old(pq.heap.a[index])))
 //@   ensures forall y any :: old(member(pq.heap, y)) && y != old(pq.heap.a[index]) ==> member(pq.heap, y)
 //@   ensures forall y any :: member(pq.heap, y) ==> old(member(pq.heap, y))
 //@   modifies pq.heap.a, elems(pq.heap.a)
